@@ -259,6 +259,27 @@ func CompareDataset(path string, o *Obj, d *obs.Dataset, opt Opts) []Problem {
 					}
 				}
 			}
+			// generated partial reads: the values at the selected coordinates, in selection order
+			for _, so := range d.Sels {
+				if strings.HasPrefix(so.Err, "MISMATCH") {
+					ps = append(ps, Problem{"partial-read-values", path, fmt.Sprintf("%s (selection %+v, dims %v chunk %v)", so.Err, so.Sel, o.Dims, s.Chunk)})
+					continue
+				}
+				if so.Err != "" {
+					continue // C09 decides which in-bounds selections may be refused
+				}
+				idx := so.Sel.Indices(o.Dims)
+				if len(idx) != len(so.Bits) {
+					ps = append(ps, Problem{"partial-read-values", path, fmt.Sprintf("selection %+v on dims %v returned %d elements, selects %d", so.Sel, o.Dims, len(so.Bits), len(idx))})
+					continue
+				}
+				for i, ix := range idx {
+					if ix >= len(want) || so.Bits[i] != want[ix] {
+						ps = append(ps, Problem{"partial-read-values", path, fmt.Sprintf("selection %+v on dims %v chunk %v: element %d = %v, written %v", so.Sel, o.Dims, s.Chunk, i, math.Float64frombits(so.Bits[i]), math.Float64frombits(want[ix]))})
+						break
+					}
+				}
+			}
 		} else if d.ReadErr == "" {
 			ps = append(ps, Problem{"read-unsupported-returned-values", path, fmt.Sprintf("Read() returned %d values for a %s dataset for which no float64 read is defined", len(d.Read), s.Type)})
 		}
